@@ -606,6 +606,7 @@ func vfCAlphabet(mode string, max int64, withProxy bool) []*vfCOp {
 		put("put(ac,k,v1)", kac, v1, ""),
 		put("put(ac,k,v2)", kac, v2, ""),
 		put("put(raw,k,w1)", kraw, w1, ""),
+		put("put(raw,k,empty)", kraw, []byte{}, ""), // a zero-length value is a legitimate entry outside the CAS
 		put("put(ac,k,v2,short)", kac, v2, "short"),
 		put("put(raw,k,w1,reader-error)", kraw, w1, "readerr"),
 		put("put(cas,b,file-creation-fails)", kb, db, "createfail"),
